@@ -4,6 +4,7 @@ package c11
 import (
 	"context"
 	"fmt"
+	"runtime"
 	"sort"
 	"strings"
 	"sync"
@@ -29,10 +30,11 @@ func init() {
 	vlib.Register(&vlib.Prop{
 		ID:    "C11",
 		Level: "exploration",
-		Cases: func(tier string) int { return forcedCases() + vlib.TierN(tier, 600, 120000) },
+		Cases: func(tier string) int { return forcedCases() + vlib.TierN(tier, 600, 120000) + longCases(tier) },
 		Rule: "forced part: for each hook point of Publish (after closed check, topic lock taken, persisted), Subscribe (registered in wait group, locks taken, before replay, before registration) and the send loop, " +
 			"operation A is parked there while the opposite operation B (Subscribe resp. Publish) runs to completion or blocks behind A (decided by the quiescence detector), then A is released; grid x buffer {0,1,4} x blocking x {0,1,3} messages published before x {with/without an older subscription}, plus 1..2 messages after. " +
 			"burst part (every third non-forced case): 24 fresh topics per case; on each, 3..8 publishers released by a barrier publish as the very first operations on that topic (first use of the per-topic lock and of the topic's log), optionally racing a first Subscribe, then a late subscription must be replayed every accepted message exactly once. " +
+			"long-log part (last 32 / 640 cases): a topic log of 1030..4200 messages (written in batches of up to 700, one batch Publish call of 1500..3000 messages in a third of the cases) is replayed to 1..3 subscriptions started together with 1..3 publishers that publish 20..80 more messages one by one and in small batches while the replays run; a late subscription afterwards; sizes chosen around powers of two (1024, 2048, 4096). " +
 			"random part: persistent GoChannel, 1..2 topics, 1..4 publishers x 1..10 messages (batches 1..3), 1..5 always-acking subscriptions started at random moments, yield/delay injection at the hook points. " +
 			"Oracle at quiescence: for every subscription the multiset of received messages equals the set of successfully published messages of its topic, every count exactly 1. " +
 			"In the forced and burst classes messages are identified by their payload and the UUIDs are unique, all empty or all equal (Message.UUID is not an identity). " +
@@ -45,9 +47,14 @@ func init() {
 	})
 }
 
+func longCases(tier string) int { return vlib.TierN(tier, 32, 640) }
+
 func run(e *vlib.Env) vlib.Result {
 	if e.Idx < forcedCases() {
 		return forced(e)
+	}
+	if e.Idx >= forcedCases()+vlib.TierN(e.Tier, 600, 120000) {
+		return longLog(e)
 	}
 	if e.Idx%3 == 0 {
 		return burst(e)
@@ -296,6 +303,7 @@ func random(e *vlib.Env) vlib.Result {
 	}
 	// Message.UUID is not an identity: a quarter of the programs use empty or equal UUIDs (see gcw.Program.UUIDs)
 	prog.UUIDs = []string{"", "", "empty", "same"}[vlib.HashStr(e.ID())%4]
+	prog.MsgCtx = vlib.HashStr(e.ID()+"/msgctx")%3 == 0 // a third of the programs publish messages that carry (cancelled, soon cancelled, live) contexts
 	for i, n := 0, r.Range(1, 4); i < n; i++ {
 		prog.Pubs = append(prog.Pubs, gcw.PubSpec{Topic: r.Intn(prog.Topics), N: r.Range(1, 10), Batch: r.Range(1, 3)})
 	}
@@ -519,6 +527,136 @@ func burst(e *vlib.Env) vlib.Result {
 	res.NonTrivial = true
 	res.Sig = vlib.Sig("burst", cfg.OutputChannelBuffer, npubTotal, e.Idx)
 	res.Sample = map[string]any{"fresh_topics": topics, "publishers": npubTotal}
+	cd := make(chan struct{})
+	go func() { ps.Close(); close(cd) }()
+	vlib.WaitClosed(cd, vlib.WD)
+	cdone := make(chan struct{})
+	go func() { consumers.Wait(); close(cdone) }()
+	vlib.WaitClosed(cdone, vlib.WD)
+	return res
+}
+
+// longLog: replays that take long (logs beyond 1024 / 2048 / 4096 messages) overlapping live publishing.
+func longLog(e *vlib.Env) vlib.Result {
+	r := e.R
+	cfg := gochannel.Config{OutputChannelBuffer: []int64{0, 1, 64}[r.Intn(3)], Persistent: true}
+	res := vlib.Result{Class: fmt.Sprintf("long-log/buf%d", cfg.OutputChannelBuffer)}
+	ps := gochannel.NewGoChannel(cfg, watermill.NopLogger{})
+	topic := e.ID() + "/long"
+	uuidMode, uuidOf := uuidFn(r, e.ID())
+	nOld := []int{1030, 1100, 2050, 2100, 3000, 4100, 4200}[r.Intn(7)]
+	oneCall := r.Chance(0.33)
+	var accepted []string
+	var accMu sync.Mutex
+	publish := func(ids ...string) {
+		msgs := make([]*message.Message, len(ids))
+		for i, u := range ids {
+			msgs[i] = message.NewMessage(uuidOf(u), []byte(u))
+		}
+		if err := ps.Publish(topic, msgs...); err == nil {
+			accMu.Lock()
+			accepted = append(accepted, ids...)
+			accMu.Unlock()
+		}
+	}
+	for n := 0; n < nOld; {
+		k := r.Range(200, 700)
+		if oneCall {
+			k = nOld
+		}
+		if k > nOld-n {
+			k = nOld - n
+		}
+		ids := make([]string, k)
+		for i := range ids {
+			ids[i] = fmt.Sprintf("%s/old%d", e.ID(), n+i)
+		}
+		publish(ids...)
+		n += k
+	}
+	var consumers sync.WaitGroup
+	var recs []*rec
+	var recsMu sync.Mutex
+	subscribe := func() {
+		rc := &rec{got: map[string]int{}}
+		ch, err := ps.Subscribe(context.Background(), topic)
+		if err != nil {
+			return
+		}
+		recsMu.Lock()
+		recs = append(recs, rc)
+		recsMu.Unlock()
+		consumers.Add(1)
+		go func() {
+			defer consumers.Done()
+			for m := range ch {
+				rc.add(string(m.Payload))
+				m.Ack()
+			}
+		}()
+	}
+	nsub, npub := r.Range(1, 3), r.Range(1, 3)
+	live := 0
+	barrier := make(chan struct{})
+	var wg sync.WaitGroup
+	for i := 0; i < nsub; i++ {
+		wg.Add(1)
+		go func() { defer wg.Done(); <-barrier; subscribe() }()
+	}
+	for p := 0; p < npub; p++ {
+		n := r.Range(20, 80)
+		live += n
+		rr := r.Fork()
+		wg.Add(1)
+		go func(p, n int) {
+			defer wg.Done()
+			<-barrier
+			for i := 0; i < n; {
+				k := 1
+				if rr.Chance(0.2) {
+					k = rr.Range(2, 4)
+				}
+				if k > n-i {
+					k = n - i
+				}
+				ids := make([]string, k)
+				for j := range ids {
+					ids[j] = fmt.Sprintf("%s/live%d.%d", e.ID(), p, i+j)
+				}
+				publish(ids...)
+				i += k
+				for y := rr.Intn(4); y > 0; y-- {
+					runtime.Gosched()
+				}
+			}
+		}(p, n)
+	}
+	close(barrier)
+	done := make(chan struct{})
+	go func() { wg.Wait(); close(done) }()
+	if oc, d := vlib.WaitClosed(done, vlib.WD); oc == vlib.Stuck {
+		res.Fail("publish-stuck", "Publish/Subscribe calls overlapping a long replay never returned (quiescent)")
+		res.Witness = d
+	} else if oc == vlib.Inconclusive {
+		res.Inconclusive("publishers/subscribers not finished")
+	}
+	if res.Verdict == "" {
+		subscribe() // late subscription: everything from the log
+		if oc, _ := vlib.Settle(vlib.WD); oc == vlib.Inconclusive {
+			res.Inconclusive("not quiescent")
+		}
+	}
+	if res.Verdict == "" {
+		judge(&res, recs, &recsMu, accepted, &accMu)
+	}
+	res.Count("long_log_messages_before", nOld)
+	res.Count("long_log_live_messages", live)
+	res.Count("long_log_subscriptions", len(recs))
+	res.Count("uuids_"+uuidMode, 1)
+	res.NonTrivial = true
+	res.Spec = fmt.Sprintf("old=%d oneCall=%v subs=%d pubs=%d live=%d uuids=%s", nOld, oneCall, nsub, npub, live, uuidMode)
+	res.Sig = vlib.Sig("long-log", cfg.OutputChannelBuffer, nOld, oneCall, nsub, npub, live, e.Idx)
+	res.Sample = map[string]any{"spec": res.Spec}
 	cd := make(chan struct{})
 	go func() { ps.Close(); close(cd) }()
 	vlib.WaitClosed(cd, vlib.WD)
